@@ -131,3 +131,7 @@ func flushStats() {
 	}
 	os.WriteFile(filepath.Join(outDir(), fmt.Sprintf("stats-%s.json", shardName())), bz, 0o644)
 }
+
+func jsonMarshal(v any) ([]byte, error) { return json.Marshal(v) }
+
+func tierThorough() bool { return os.Getenv("VERIF_TIER") == "thorough" }
